@@ -163,20 +163,49 @@ Theorem C17_stale_record_is_rewritten :
     snd (fst r) = c /\ lookup (fst (fst r)) k = Some v' /\ forall j, j <> k -> lookup (fst (fst r)) j = lookup m j.
 Proof. exact stale_record_is_rewritten_pf. Qed.
 
-(* on a cold cache (no region of that id yet) and for accepted records the callback is CheckAndPutRegion, so the cold-start
-   theorems above speak about it too *)
+(* while every cached region lies behind the record that is read (a cold start: the cache holds loaded records only), the
+   callback is CheckAndPutRegion for new ids and for accepted records, so the cold-start theorems above speak about it too *)
 Theorem C17_loaded_callback_cold :
-  forall c r, find_id c (fst r) = None \/ accepts c r = true -> put_loaded c r = check_and_put c r /\ rw_loaded c r = None.
-Proof. intros c r [H|H]; [exact (put_loaded_cold c r H)|exact (put_loaded_accepted c r H)]. Qed.
+  forall c r, (forall o, In o c -> fst o <= fst r) -> find_id c (fst r) = None \/ accepts c r = true ->
+    put_loaded c r = check_and_put c r /\ rw_loaded c r = None.
+Proof. intros c r Hb [H|H]; [exact (put_loaded_cold c r Hb H)|exact (put_loaded_accepted c r Hb H)]. Qed.
+
+(* over ANY cache (warm, lagging behind the storage): the callback never has a record deleted that the load has not reached
+   yet - the hypothesis under which C17_paging_exact holds - and otherwise answers as CheckAndPutRegion does (dc3cb19) *)
+Theorem C17_loaded_callback_deletes_behind :
+  forall c r id, In id (snd (put_loaded c r)) -> id <= fst r.
+Proof. exact put_loaded_deletes_behind_pf. Qed.
+Theorem C17_loaded_callback_cache :
+  forall c r, accepts c r = true ->
+    fst (put_loaded c r) = fst (check_and_put c r) /\
+    forall id, In id (snd (check_and_put c r)) -> id <= fst r -> In id (snd (put_loaded c r)).
+Proof. exact put_loaded_cache_pf. Qed.
 
 (* stated, not proved (checks/C17.json "todo"): after a load over ANY warm cache every record left in storage describes
-   the cached region of its id, and every cached region that had a record still has one. (The callback may now delete ids
-   ahead of the scan, so the outcome depends on the paging; the correspondence cases and the monitor cover it.) *)
+   the cached region of its id, and every cached region that had a record still has one. (Before dc3cb19 the
+   callback deleted ids ahead of the scan and the second half was FALSE - C17_lagging_cache_eager_callback_refuted; now
+   C17_loaded_callback_deletes_behind gives the hypothesis of the paging theorem, what is missing is the paging theorem for
+   callbacks with the rewrite hook. The correspondence cases and the monitor cover it.) *)
 Definition C17_warm_load_todo : Prop :=
   forall (m : amap rv) (c0 : cache), sorted_from 0 m -> disjoint c0 -> ids_distinct c0 ->
     let res := page_loop never_fails put_loaded rw_loaded region_limit_min (fuel_for m region_limit0) m 0 region_limit0 O c0 [] in
     (forall id v, lookup (snd (fst res)) id = Some v -> In (id, v) (snd res)) /\
     (forall id v, In (id, v) (snd res) -> lookup m id <> None -> lookup (snd (fst res)) id = Some v).
+
+(* the lagging cache (region 5 split and its left half merged into region 1 during another leader's term): storage, cache
+   and the next full load agree after the warm load; with the callback as it was before dc3cb19 region 5 is served and has
+   no record *)
+Example C17_lagging_cache :
+  let old5 := RV 10 40 1 5 28 in let r1 := RV 10 20 1 6 28 in let r5 := RV 20 40 1 6 28 in
+  let ops := [OSaveRegion 5 old5; OSaveRegion 1 r1; OSaveRegion 5 r5; OLoadWarm [(5, old5)]; OLoadRegions] in
+  skipn 3 (run run_op sinit ops) = [BCache RDone [(1, r1); (5, r5)] [(1, r1); (5, r5)] [(1, r1); (5, r5)]; BRegions RDone [(1, r1); (5, r5)]].
+Proof. exact lagging_cache_example. Qed.
+Example C17_lagging_cache_eager_callback_refuted :
+  let old5 := RV 10 40 1 5 28 in let r1 := RV 10 20 1 6 28 in let r5 := RV 20 40 1 6 28 in
+  let m := [(1, r1); (5, r5)] in
+  let res := page_loop never_fails put_loaded_eager rw_loaded region_limit_min (fuel_for m region_limit0) m 0 region_limit0 O [(5, old5)] [] in
+  fst (fst (fst res)) = RDone /\ snd (fst res) = [(1, r1)] /\ find_id (snd res) 5 = Some r5.
+Proof. exact lagging_cache_eager_witness. Qed.
 
 Example C17_reelected_leader :
   let r1 := RV 0 100 5 5 30 in let r1' := RV 0 100 6 5 30 in let r2 := RV 100 0 5 5 30 in
@@ -221,4 +250,6 @@ Print Assumptions C17_crash_in_flush_atomic.
 Print Assumptions C17_load_prunes_to_cache.
 Print Assumptions C17_stale_record_is_rewritten.
 Print Assumptions C17_loaded_callback_cold.
+Print Assumptions C17_loaded_callback_deletes_behind.
+Print Assumptions C17_loaded_callback_cache.
 Print Assumptions C17_prune_operation.
